@@ -85,6 +85,19 @@ claimed = {
    technique='stateless model checking of the real timed Queue/Executor/TaskExecutor under a controlled scheduler with a virtual clock (timer firings are explorer-owned events; early firing is a bounded deviation)',
    text='21 scenarios: Queue Add/Poll with 2 pollers, Cancel racing Poll, Cancel before Poll, Shutdown with every flag combination racing Add and a poller, max size; Executor with 1-2 workers (tasks then Shutdown, Cancel before/racing the due time, Shutdown(CancelPendingElements)); TaskExecutor (replacement, callback re-scheduling its own id, third schedule, Cancel racing the due time, re-schedule while the previous callback runs). Every interleaving with <= 2 (thorough 3) deviations. Oracle: at most one delivery, virtual time at delivery >= scheduled time unless IgnorePendingTimeouts, an element whose Cancel returned before the delivery decision is never delivered, pending elements are delivered before Shutdown() returns, pollers/Shutdown terminate, replaced tasks never start after the replacing call returned, Cancel(id) results consistent with what runs afterwards.',
    note='Trusted: vtime models timers and time.Now (virtual clock instead of wall clock); delivery/cancel events are logged atomically with the deciding select/close. Three genuine defects repaired (fix: commits).', ref='2 C18'),
+
+ 'C01': dict(cat='exploration', engine='I',
+   technique='exhaustive enumeration of a run-time type-shape grammar x boundary-value alphabets x validation on/off; all compositions of the encoded length into read chunks for the stream helpers',
+   text='Type shapes are built at run time with reflect.StructOf/SliceOf/ArrayOf/MapOf/PointerTo from a catalogue of ~70 field kinds (all numeric kinds, bool, strings and byte slices with uint8/16/32 prefixes and min/max bounds, byte arrays, big.Int, time, custom Serializable with/without type code, slices, arrays, maps, nested/pointer/optional/embedded/inlined structs, interfaces with uint8 and uint32 type codes, named slice types with lexical-order/no-duplicates/at-most-one-of-each-type/must-occur rules): every kind alone, pairs, and every kind nested as struct field, optional pointer, slice element and map value. For every shape the cross product of per-leaf boundary alphabets (capped per shape, cap reported) is encoded and decoded with and without validation: Decode(Encode(v)) == v up to nil/empty and imposed ordering, consumed == produced bytes, repeated encodes identical; JSON round trip for values JSON can express; every stream Write*/Read* pair is read back through every composition of its encoding into read chunks (<= 10 bytes quick, 12 thorough; 1-/2-cut splittings above), with and without io.EOF on the last chunk.',
+   note='Trusted: canonical comparison (nil==empty, UnixNano). Map-iteration-order independence is only sampled (4 repeats). One genuine defect repaired (stream.ReadBytes), one recorded (arrays of non-byte elements cannot be decoded).', ref='2 C01'),
+ 'C02': dict(cat='exploration', engine='I',
+   technique='exhaustive enumeration of short hostile byte strings and of the single-fault neighbourhood of valid encodings / JSON documents against every decoder, with a per-call no-panic / consumed-bytes / measured-allocation oracle',
+   text='For every target shape of the C01 grammar and validation on/off: all byte strings of length <= 4 (thorough 6) over {00,01,02,7f,80,ff}; every single-byte substitution, truncation and extension of every valid encoding; for JSON every top-level atom and every single-subtree replacement by each of 15 atoms (or a missing key) of well-shaped documents through JSONDecode and MapDecode; the same strings plus hostile full-width prefixes through 50+ primitive decoders (Deserializer Read*, stream Read* with all four prefix widths and whole/bytewise readers, typeutils, SerializableOrderedMap.Decode). Per call: no panic, consumed <= supplied, TotalAlloc delta <= 256 KiB + 64 x len(input), element-decoder calls <= len(input)+1.',
+   note='Allocation is measured (runtime.MemStats around each call), not proved; allocations below the 256 KiB noise floor (e.g. those a uint16 prefix can cause) are not decided; iteration bounded only by zero-size elements is not decided. Three genuine defects repaired, one recorded (array decode panic).', ref='2 C02'),
+ 'C03': dict(cat='exploration', engine='I',
+   technique='exhaustive enumeration against an independent reference encoder (forward) and re-encoding of every accepted input of an exhaustively enumerated byte-string space (reverse)',
+   text='Forward: for every (shape, value, validation mode) of the C01 grammar that Encode accepts the output is compared byte for byte with a reference encoder written independently from the documented layout (LE numbers, 0/1 bools, prefix widths, uint8/uint32 type codes, uint32 optional marker, 32-byte LE uint256, ns timestamps, map entries sorted by key||value bytes, lexical ordering); a value the layout cannot express (length >= 2^prefix, bound violation under validation) must not be accepted. Reverse: every byte string of length <= 4 (thorough 6) over the 6-byte alphabet and the complete single-byte mutation/truncation/extension neighbourhood of every valid encoding is fed to Decode with validation; whenever it is accepted consuming n bytes the decoded value must re-encode with validation to exactly b[:n].',
+   note='Trusted: the reference encoder in props/serixgen is the specification. Inputs with saturated timestamps are excluded as in the statement. Shapes containing arrays of non-byte elements are skipped (they cannot be decoded, C01/C02 known finding).', ref='2 C03'),
 }
 na_reason = 'check not built yet in this round (engine exists; see DESIGN.md section 9 for the order of work)'
 checks = []
